@@ -34,7 +34,7 @@ RUNS = {"quick": 800, "thorough": 30000}
 BUDGET = {"quick": 80, "thorough": 1500}
 CHUNK = {"quick": 4, "thorough": 20}
 RUN_TIMEOUT_S = 600
-KINDS = ["copy", "unwrap", "group", "rmid", "assign_empty", "assign_map", "mc", "mc_empty", "compile", "compile_init", "metric", "trs", "evo", "hyb", "alt"]
+KINDS = ["copy", "replace", "unwrap", "group", "rmid", "assign_empty", "assign_map", "mc", "mc_empty", "compile", "compile_init", "metric", "trs", "evo", "hyb", "alt"]
 RULE = (
     "session = pool of 1-2 seeded circuits (random programs as in C01 on <=5 qubits, or a TimeReversedSolver circuit) "
     "and 1-2 targets (graph / stabilizer / density-matrix QuantumState), then 4-14 calls over {copy, unwrap_nodes, "
@@ -44,7 +44,7 @@ RULE = (
     "non-trivial = some object was used by >=3 calls of >=2 kinds, at least one of them after a noisy copy was derived from it."
 )
 PROBES = ["noisy_copy_then_reuse", "compile_with_initial_state", "rewrite_changed_structure", "solver_on_shared_target",
-          "metric_on_reused_circuit", "pool_ge_4_circuits", "mc_run", "target_dm", "target_graph", "target_stab"]
+          "metric_on_reused_circuit", "pool_ge_4_circuits", "mc_run", "target_dm", "target_graph", "target_stab", "target_stab_signed", "replace_op_done"]
 REAL = ["graphiq.circuit.circuit_dag.CircuitDAG (copy, unwrap_nodes, group_one_qubit_gates, remove_identity, assign_noise)",
         "graphiq.backends.compiler_base.CompilerBase.compile + both compilers", "graphiq.noise.monte_carlo_noise.MonteCarloNoise",
         "graphiq.metrics (Infidelity, CircuitDepth)", "graphiq.solvers.time_reversed_solver.TimeReversedSolver",
@@ -91,7 +91,7 @@ def gen_case(run_seed, tier):
         k = wl.choices(KINDS, weights=[w[x] for x in KINDS])[0]
         hist.append([k] + [wl.randrange(1000) for _ in range(5)])
     return {"ne": ne, "np": np_, "programs": progs, "target": [tg[0], [list(e) for e in tg[1]]],
-            "target_reps": [sz.choice(["g", "s", "dm"]) for _ in range(sz.randint(1, 2))],
+            "target_reps": [sz.choice(["g", "s", "dm", "s-"]) for _ in range(sz.randint(1, 2))],
             "with_trs_circuit": sz.random() < 0.4 and np_ >= 2, "history": hist, "lseed": sz.randrange(10**9),
             "shuffle_nodes": sz.random() < 0.4}
 
@@ -282,7 +282,25 @@ def noise_map(rng):
     return m
 
 
+def make_signed_target(n, edges, seed):
+    """a stabilizer target that is not a graph state: |G> with Pauli Z/X applied to some qubits (minus-sign generators)"""
+    import graphiq.backends.stabilizer.functions.transformation as tr
+    from graphiq.backends.stabilizer.functions.rep_conversion import get_clifford_tableau_from_graph
+
+    tab = get_clifford_tableau_from_graph(graphs.to_nx((n, edges)))
+    rr = random.Random(seed)
+    for q in range(n):
+        g = rr.choice(["I", "Z", "X", "Z"])
+        if g == "Z":
+            tab = tr.z_gate(tab, q)
+        elif g == "X":
+            tab = tr.x_gate(tab, q)
+    return QuantumState(tab, rep_type="s")
+
+
 def make_target(n, edges, rep, order_seed=None):
+    if rep == "s-":
+        return make_signed_target(n, edges, order_seed if order_seed is not None else 1)
     G = graphs.to_nx((n, edges))
     if order_seed is not None:
         # same labelled graph, vertices created in another order: qubit k is the k-th created vertex throughout graphiq
@@ -323,8 +341,8 @@ def run_case(case):
                 c, _ = build({"ne": ne, "np": np_, "nc": 1, "history": prog})
                 circuits.append({"obj": c, "origin": "program", "uses": [], "noisy_derived": False, "noisy": False})
             for rep in case["target_reps"]:
-                targets.append({"obj": make_target(tn, tedges, rep, order_seed=(case["lseed"] + 23) if case.get("shuffle_nodes") else None), "rep": rep})
-                ctx.probe({"g": "target_graph", "s": "target_stab", "dm": "target_dm"}[rep])
+                targets.append({"obj": make_target(tn, tedges, rep, order_seed=(case["lseed"] + 23) if (case.get("shuffle_nodes") or rep == "s-") else None), "rep": rep})
+                ctx.probe({"g": "target_graph", "s": "target_stab", "dm": "target_dm", "s-": "target_stab_signed"}[rep])
             if case["with_trs_circuit"]:
                 from graphiq.solvers.time_reversed_solver import TimeReversedSolver
 
@@ -403,6 +421,24 @@ def run_case(case):
                         ctx.violate("P_copy_differs", step, f"copy of circuit #{ci} differs in {[str(x) for x in d][:4]}", {"call": "copy"})
                         ok = False
                     circuits.append({"obj": c2, "origin": f"copy({ci})", "uses": [], "noisy_derived": False, "noisy": C["noisy"]})
+                elif k == "replace":
+                    # the circuit is edited on purpose through the public replace_op: an Identity placeholder (or another
+                    # one-qubit gate) is exchanged for a gate of another class on the same register
+                    nodes = sorted(n_ for n_ in C["obj"].dag.nodes if isinstance(n_, int) and gq.spec_of(C["obj"].dag.nodes[n_]["op"])[0] == "g1"
+                                   and type(C["obj"].dag.nodes[n_]["op"].noise).__name__ == "NoNoise")
+                    if not nodes:
+                        ctx.log(step, k, "skipped")
+                        continue
+                    node = nodes[a[2] % len(nodes)]
+                    old_sp = gq.spec_of(C["obj"].dag.nodes[node]["op"])
+                    names = [x for x in gq.NAMES1 if x != old_sp[1]]
+                    new_sp = ["g1", names[a[3] % len(names)], old_sp[2], old_sp[3]]
+                    C["obj"].replace_op(node, gq.make_op(new_sp))
+                    ctx.probe("replace_op_done")
+                    ok = ok and check_unchanged(step, what, before, exempt_circuit=ci)
+                    C["uses"].append(k)
+                    ctx.log(step, k, ci, node, new_sp)
+                    continue
                 elif k in ("unwrap", "group", "rmid"):
                     nb = C["obj"].dag.number_of_nodes()
                     {"unwrap": C["obj"].unwrap_nodes, "group": C["obj"].group_one_qubit_gates, "rmid": C["obj"].remove_identity}[k]()
@@ -532,7 +568,11 @@ def run_case(case):
                     st_ = compiled_photons(C["obj"], backend)
                     try:
                         if tt.rep_type != "g":
-                            Infidelity(tt).evaluate(st_, C["obj"])
+                            v1 = Infidelity(tt).evaluate(st_, C["obj"])
+                            v2 = Infidelity(tt).evaluate(st_, C["obj"])
+                            if not np.isclose(v1, v2):
+                                ctx.violate("P_metric_not_repeatable", step, f"Infidelity against target #{ti} ({T['rep']}) evaluated twice on the same state gives {v1} then {v2}", {"call": "metric"})
+                                ok = False
                     except (ValueError, AssertionError, TypeError):
                         pass  # representation pairs the metric does not support are not this property's subject
                     CircuitDepth().evaluate(st_, C["obj"])
@@ -598,7 +638,7 @@ def run_case(case):
                 # whether the pool changed even though the call failed
                 ctx.probe("call_raised:" + k)
                 ctx.log(step, k, "raised", type(e).__name__)
-                ok = ok and check_unchanged(step, what + ":raised", before, exempt_circuit=ci if k in ("unwrap", "group", "rmid") else None)
+                ok = ok and check_unchanged(step, what + ":raised", before, exempt_circuit=ci if k in ("unwrap", "group", "rmid", "replace") else None)
                 continue
             ok = ok and check_unchanged(step, what, before)
             C["uses"].append(k)
